@@ -155,7 +155,9 @@ func ParsePKCS7(data []byte) (p7 *PKCS7, err error) {
 
 func parseSignedData(data []byte) (*PKCS7, error) {
 	var sd signedData
-	asn1.Unmarshal(data, &sd)
+	if _, err := asn1.Unmarshal(data, &sd); err != nil {
+		return nil, err
+	}
 	certs, err := sd.Certificates.Parse()
 	if err != nil {
 		return nil, err
